@@ -61,6 +61,10 @@ class DBSpace(data_algebra.data_space.DataSpace):
         if key is None:
             self.n_tmp = self.n_tmp + 1
             key = f"da_temp_{self.n_tmp}"
+            while key in self.keys():
+                # never hand out a name that is already in use
+                self.n_tmp = self.n_tmp + 1
+                key = f"da_temp_{self.n_tmp}"
         assert isinstance(key, str)
         assert isinstance(allow_overwrite, bool)
         if not allow_overwrite:
@@ -118,6 +122,10 @@ class DBSpace(data_algebra.data_space.DataSpace):
         if key is None:
             self.n_tmp = self.n_tmp + 1
             key = f"da_temp_{self.n_tmp}"
+            while key in self.keys():
+                # never hand out a name that is already in use
+                self.n_tmp = self.n_tmp + 1
+                key = f"da_temp_{self.n_tmp}"
         assert isinstance(key, str)
         assert isinstance(allow_overwrite, bool)
         if key in self.description_map.keys():
